@@ -252,7 +252,8 @@ namespace options
             }
         }
 
-        s << "usage: " << app_name_;
+        std::stringstream synopsis;
+        synopsis << "usage: " << app_name_;
 
         std::stringstream usage;
 
@@ -292,10 +293,10 @@ namespace options
         {
             out = out.substr(1);
 
-            nitro::io::terminal::format_padded(s, out, 8 + app_name_.size(), 80);
+            nitro::io::terminal::format_padded(synopsis, out, 8 + app_name_.size(), 80);
         }
 
-        s << std::endl << std::endl;
+        s << synopsis.str() << std::endl << std::endl;
 
         if (!about_.empty())
         {
